@@ -108,7 +108,31 @@ EXTRA = {
  'C19': ' Also a solved block with one extra line that defines no variable (phantom initial condition etc.).',
  'C20': ' Also constants in every float() spelling, single-variable block, lag of a lag, block variables named like the template locals (one collision recorded as a known finding); stated constants / initial conditions are the k=0 values.',
 }
+# --- additions after the seeded-change rounds 5-7 ---------------------------------------------------------------------------------------
+EXTRA2 = {
+ 'C01': ' Rounds 5-7: two tax flows in one zone (with and without a sector-level tax rate), the same flow registered twice, ambiguous topologies excluded (they are refused).',
+ 'C02': ' Rounds 6-7: a user function registered under the name of a math function, a sign-flipped identity used as the base of a power; a symbolic path the value classes cannot follow makes the case inconclusive and is probed concretely (a reproducing probe is a violation).',
+ 'C03': ' Round 7: comparison-valued variables at k=0; reduction on == off also on solver objects that solved a sibling block before.',
+ 'C04': ' Rounds 6-7: out-of-zone sector with a variable named like a market demand, supplier rule / role restated, money issuer without a ledger (the check no longer excuses issuers without F).',
+ 'C05': ' Rounds 6-7: names embedded after a comma / comparison / line break, sites also through the step-wise runner, a variable named EXOGENOUS_LEVEL (the harness no longer mirrors the substring test).',
+ 'C06': ' Rounds 6-7: exclusions registered between flows, pre-state with a flow on the books, flows registered after the alias pass, the spelling 0. is identically zero (don\'t-care given up).',
+ 'C07': ' Round 6: a flow registered n times is booked n times.',
+ 'C08': ' Rounds 6-7: countries and the external sector are permuted too (unless a Region relies on the documented default currency); ambiguous topologies must be refused alike in every order.',
+ 'C09': ' Round 6: parameter transport with long decimal expansions (the four-decimal-grid assumption was given up).',
+ 'C10': ' Rounds 6-7: long decimals and expression text through the Model API; variables excluded from the steady-state search keep their stated initial conditions.',
+ 'C11': ' Rounds 6-7: symbolic local names containing the separator (CrossHair), contraction written through a user function, contraction from far-away start values (two inputs recorded as known findings).',
+ 'C12': ' Rounds 6-7: cash-flow histories through Sector.AddCashFlow, the string constructor Equation(lhs, rhs=text).',
+ 'C13': ' Rounds 6-7: non-ASCII identifiers, formatted string literals; the renamed output must be the same syntax tree up to the names.',
+ 'C14': ' Rounds 6-7: names containing the marker word, two-lag / bracketed lag lines, left-hand sides that are not names, descriptions with line breaks.',
+ 'C15': ' Rounds 6-7: the time step in an equation; the bound is the property\'s literally (no allowance for the one-step gain, absolute bound near zero).',
+ 'C17': ' Round 7: model-level series with / without registered logs for display settings stated before main().',
+ 'C18': ' Rounds 6-7: ambiguous topologies refused alike under renamings; embedded economies with nested country / currency codes.',
+ 'C19': ' Round 7: qualified names whose sector codes are prefixes of one another.',
+ 'C20': ' Rounds 6-7: stated exogenous paths are the module\'s paths, expression scalars, overflow (NaN error), output path in the docstring; four inputs recorded as known findings (namespace collisions, division by a computed constant).',
+}
 for _pid, _t in EXTRA.items():
+    C[_pid]['text'] = C[_pid]['text'] + _t
+for _pid, _t in EXTRA2.items():
     C[_pid]['text'] = C[_pid]['text'] + _t
 PENDING = {}
 ALL = ['C%02d' % i for i in range(1, 21)]
